@@ -1,9 +1,10 @@
 import DepsDev.Proofs.C03L3Npm
 
 /-!
-# C03 layer L3 for npm, operator `tilde`: one comparator, prerelease candidates
+# C03 layer L3 for npm, operator `tilde`: one comparator, prerelease candidates (operands without tag)
 
-See `C03L3Npm` for the statement (`L3Npm`) and the proof script.
+See `C03L3Npm` for the statements and the proof script; `C03L3NpmTildeP` has the tagged operands
+and the assembled `L3Npm .tilde`.
 -/
 namespace DepsDev.Proofs.C03
 
@@ -13,12 +14,6 @@ set_option linter.unusedSimpArgs false
 set_option linter.unusedVariables false
 
 theorem l3_full_tilde : L3Full .tilde := by l3_full
-theorem l3_pre_lt_tilde : L3PreO .tilde .lt := by l3_pre
-theorem l3_pre_eq_tilde : L3PreO .tilde .eq := by l3_pre
-theorem l3_pre_gt_tilde : L3PreO .tilde .gt := by l3_pre
 theorem l3_part_tilde : L3Part .tilde := by l3_part
-
-theorem l3_npm_tilde : L3Npm .tilde :=
-  l3_assemble _ l3_full_tilde (l3_pre_assemble _ l3_pre_lt_tilde l3_pre_eq_tilde l3_pre_gt_tilde) l3_part_tilde
 
 end DepsDev.Proofs.C03
